@@ -78,3 +78,17 @@ pub fn fingerprint(mut bytes: Vec<u8>) -> Vec<u8> {
     bytes.extend_from_slice(&v.to_be_bytes());
     bytes
 }
+
+/// append an integrity attribute (0x0008 or 0x001c) with an arbitrary value (possibly of an illegal length),
+/// padded to 4 bytes, with the header length field updated
+pub fn append_raw_integrity(mut bytes: Vec<u8>, sha256: bool, value: &[u8]) -> Vec<u8> {
+    let padded = (value.len() + 3) / 4 * 4;
+    let new_body = bytes.len() - 20 + 4 + padded;
+    set_len(&mut bytes, new_body);
+    let ty: u16 = if sha256 { 0x001c } else { 0x0008 };
+    bytes.extend_from_slice(&ty.to_be_bytes());
+    bytes.extend_from_slice(&(value.len() as u16).to_be_bytes());
+    bytes.extend_from_slice(value);
+    bytes.resize(bytes.len() + padded - value.len(), 0);
+    bytes
+}
